@@ -387,12 +387,16 @@ func encodePathAttrs(b *bytes.Buffer, asn uint32, ibgp, fbasn bool, nextHop net.
 			}
 		}
 	}
+	nextHop4 := nextHop.To4()
+	if nextHop4 == nil {
+		return fmt.Errorf("invalid next hop %q: NEXT_HOP must be an IPv4 address", nextHop)
+	}
 	b.Write([]byte{
 		0x40, 3, // mandatory, next-hop
 		4, // len
 	})
 
-	b.Write(nextHop)
+	b.Write(nextHop4)
 
 	if ibgp {
 		b.Write([]byte{
